@@ -131,7 +131,14 @@ def parseKVs (withVals : Bool) : List String → Option (List Bytes × List Byte
       let (ks, vs) ← parseKVs withVals rest
       pure (kb :: ks, vs)
 
-def step (st : State) (toks : List String) : State × String :=
+/-- The model stores values, never references: overwriting a caller buffer after the call
+    (the `-scribble` ops of property C20) cannot change anything, so these ops are the plain ones. -/
+def unscribble : List String → List String
+  | ["trie.unmarshal-scribble", hex, _] => ["trie.unmarshal", hex]
+  | ["trie.marshal-scribble", _] => ["trie.marshal"]
+  | toks => toks
+
+def stepCore (st : State) (toks : List String) : State × String :=
   match toks with
   | "trie.new" :: flags :: enc :: rest =>
     let withVals := enc != "none"
@@ -229,5 +236,13 @@ where
     match parseHex q with
     | some q => (st, intStr (Slim.getInt st.msg w q))
     | none => (st, "bad-op")
+
+def step (st : State) (toks : List String) : State × String :=
+  match toks with
+  | "trie.new-checked" :: rest =>
+    -- building takes its inputs by value: they are unchanged by construction
+    let (s, a) := stepCore st ("trie.new" :: rest)
+    (s, a ++ " inputs-unchanged")
+  | _ => stepCore st (unscribble toks)
 
 end Driver.Trie
